@@ -30,16 +30,20 @@ Theorem C02_structural_agreement :
     R orc (fst (fst (run wr rd orc o t v k))) (fst (trav nofail t k pre)).
 Proof. exact structural_agreement. Qed.
 (* the relation, spelled out (so that a weaker R cannot go unnoticed): structural failures coincide
-   exactly; a value-level failure after d consumed keys can only pre-empt a traversal outcome that
-   consumed at least d keys (for NotFound at depth d0: d < d0, the d0-th key being the offending one) *)
+   exactly; an absent node / a failed accessor after d consumed keys can only pre-empt a traversal
+   outcome that consumed at least d keys (for NotFound at depth d0: d < d0, the d0-th key being the
+   offending one); the payload is only touched (Inner) and validators only run (Invalid) for keys
+   that the traversal classifies as a leaf *)
 Theorem C02_R_unfold : forall orc r rt, R orc r rt =
   match r with
   | ROk d => exists d0, rt = ROk d0 /\ (norepl orc -> d = d0)
   | RErr (TooShort d) => rt = RErr (TooShort d)
   | RErr (NotFound d) => rt = RErr (NotFound d)
   | RErr (TooLong d) => rt = RErr (TooLong d)
-  | RErr (Absent d) | RErr (Access d _) | RErr (Invalid d _) | RErr (Inner d) =>
+  | RErr (Absent d) | RErr (Access d _) =>
       match rt with RErr Unreachable => True | RErr (NotFound d0) => d < d0 | _ => d <= rdepth rt end
+  | RErr (Inner d) => rt = ROk d
+  | RErr (Invalid d _) => exists d0, rt = ROk d0 /\ d <= d0
   | RErr Unreachable => True
   end.
 Proof. intros orc r rt. destruct r as [d|[]]; reflexivity. Qed.
